@@ -27,7 +27,7 @@ def slices(q):
     if q:
         return [("core", 2, ["attr"], [444, 885, 842]), ("core", 1, ["loclist", "cfi"], [445, 884]),
                 ("refs", 2, ["attr"], [444, 885, 482, 843]), ("refs", 1, ["loclist", "cfi"], [445, 884]),
-                ("arith", 3, ["attr"], [444, 885]), ("far", 3, ["attr"], [444])]
+                ("arith", 3, ["attr"], [444, 885]), ("far", 3, ["attr", "loclist"], [444, 885])]
     return [("core", 2, ["attr", "loclist", "cfi"], [444, 885, 842, 483, 845]),
             ("refs", 2, ["attr", "loclist", "cfi"], [444, 885, 482, 843, 845]),
             ("arith", 4, ["attr"], [444, 885]), ("far", 3, ["attr", "loclist"], [444, 885])]
